@@ -222,7 +222,7 @@ def run_kani(crate, harnesses, jobs, harness_timeout, extra_flags=(), total_time
 def classify(data, out, expected_harnesses, harness_prefixes):
     """Turn Kani's JSON into obligation records.
     Returns dict(obligations=[...], failed=[...], undecided=[reasons], covers=[...], per_harness={...})."""
-    res = {"obligations": [], "failed": [], "undecided": [], "covers": [], "per_harness": {}}
+    res = {"obligations": [], "failed": [], "undecided": [], "covers": [], "per_harness": {}, "rejections": []}
     if data is None:
         m = re.findall(r"^error(?:\[E\d+\])?: .*$", out, re.M)
         res["undecided"].append("kani produced no result file (build error / crash): " + "; ".join(m[:5]))
@@ -240,6 +240,7 @@ def classify(data, out, expected_harnesses, harness_prefixes):
               "solver": solver, "solver_s": st.get("runtime_solver_s"), "symex_s": st.get("runtime_symex_s"),
               "vccs": st.get("vccs_generated"), "named": 0, "auto": 0, "covers_sat": 0, "covers_unsat": 0}
         res["per_harness"][hid] = ph
+        partial = hid.split("::")[-1].endswith("_partial")
         checks = r.get("checks", [])
         if r["status"] != "Success" and not any(c["status"] == "Failure" for c in checks):
             e = errs.get(hid, {})
@@ -272,6 +273,16 @@ def classify(data, out, expected_harnesses, harness_prefixes):
             else:
                 ph["auto"] += 1
             res["obligations"].append(rec)
+            if status == "Failure" and partial and not m and cat == "assertion" and "verif_kani" not in (loc.get("file") or ""):
+                # partial-correctness unit (harness name ends in _partial): an assertion of the CRATE's own code that
+                # stops the call (the function refuses its input by panicking) is a rejection, not a violation; CBMC
+                # cuts the path there, so every obligation after the call is checked exactly on the returning paths.
+                rec["status"] = "Rejected"
+                res["obligations"].pop()
+                res["rejections"].append(rec)
+                ph["rejections"] = ph.get("rejections", 0) + 1
+                ph["auto"] -= 1
+                continue
             if status == "Failure":
                 if cat == "unwind" or "unwinding assertion" in desc:
                     res["undecided"].append("harness %s: unwinding assertion failed at %s (loop needs more iterations than the harness bound)" % (hid, where))
@@ -285,6 +296,9 @@ def classify(data, out, expected_harnesses, harness_prefixes):
                     res["undecided"].append(key)
             elif status == "Unreachable" and m:
                 res["undecided"].append("harness %s: named obligation %s is unreachable (vacuous)" % (hid, rec["name"]))
+    for hid, ph in res["per_harness"].items():
+        if ph.get("rejections") and not any(f["harness"] == hid for f in res["failed"]) and ph["status"] != "Success":
+            ph["status"] = "Success on every returning path (partial correctness: %d assertion(s) of the crate refuse part of the input domain)" % ph["rejections"]
     for h in expected_harnesses:
         if not any(hid == h or hid.endswith("::" + h) for hid in seen):
             res["undecided"].append("expected harness %s did not run (missing from Kani output)" % h)
